@@ -187,6 +187,41 @@ CLAIMED["C11"] = dict(
     design="DESIGN.md section 6, C11",
 )
 
+_XMLNOTE = ("Trusted: Lean kernel and standard axioms; the hand-written model of the whole formatter is compared with the code on every "
+    "run by U9 (exact equality of the tree handed to render, all configurations); the text-diff segments of each text update are an "
+    "input recorded from the real engine; lxml serialisation / re-parsing is observed. Known findings in known_findings.json.")
+CLAIMED["C08"] = dict(
+    text="Model of XMLFormatter.format in Lean 4 (ghost nodes, _xpath, real insert positions, realign, join, mark/wrap, finalize on "
+    "top of the placeholder model with explicit heap), tied to the code by U9. Theorems: split_string does not cut texts without "
+    "private-use characters, _xpath sees exactly the live view, the placeholder table is one-to-one (C11). PARTIAL: totality, "
+    "re-parsing, absence of private-use characters (text, tails and attribute values) and the namespace discipline are decided on "
+    "every run by the oracle on the real output over all formatter configurations; not a theorem about the whole formatter. "
+    "Known findings X4, X5, X6 (use_replace with text / formatting tags); fixed defect c6abe9e.",
+    note=_XMLNOTE,
+    technique="Lean 4 model + component lemmas; model/code tree correspondence; well-formedness / placeholder / namespace oracle on real output",
+    design="DESIGN.md section 6, C08",
+)
+CLAIMED["C09"] = dict(
+    text="Lean 4 lemmas the accept-all simulation rests on, for lists of any length: inserting at _get_real_insert_position places "
+    "the node at `position` among the children not marked deleted (C09_insert_position_live); a step of _xpath sees exactly the "
+    "ghost-free view and with an explicit index selects what the counting evaluator selects there; _join_delete_insert keeps the "
+    "accepted text. PARTIAL: the composition accept(format(L,S)) = patch(L,S) is not proved; the property is decided on every run "
+    "by the accept-all projection of the real output against R. Known findings X1 (text after a comment lost) and X2 (tail of a "
+    "deleted / moved node unmarked) are violations of the pinned code that cannot be repaired without editing golden-file tests.",
+    note=_XMLNOTE,
+    technique="Lean 4 proof (list lemmas on ghost views) + model/code tree correspondence + accept-projection oracle with finding classification",
+    design="DESIGN.md section 6, C09",
+)
+CLAIMED["C10"] = dict(
+    text="Lean 4 lemmas: _join_delete_insert keeps the rejected text in old-text (C10_join_keeps_both_texts), positions and addressing "
+    "as in C09. PARTIAL: the composition reject(format(L,S)) ~ L is not proved; decided on every run by the reject-all projection of "
+    "the real output against L (values of deleted attributes not recorded; annotations decoded for names / values free of ';' ':'). "
+    "Known finding X1.",
+    note=_XMLNOTE,
+    technique="Lean 4 proof (segment-list lemmas) + model/code tree correspondence + reject-projection oracle with finding classification",
+    design="DESIGN.md section 6, C10",
+)
+
 NOT_YET = {}
 
 
